@@ -1584,6 +1584,11 @@ class Engine:
         raise Unsupported("call of %s (no contract, not a builtin)" % name)
 
     def apply_uf(self, fn, args):
+        if self.concrete and fn.name() in getattr(self, "concrete_uf", {}):
+            # cross-check mode: spec functions with an executable definition are evaluated by it
+            vals = [a.code if isinstance(a, EnumV) else a for a in args]
+            if all(isinstance(v, int) for v in vals):
+                return self.concrete_uf[fn.name()](*vals)
         if self.concrete and fn.name() == "OPSUM" and isinstance(args[0], int) and \
                 getattr(self, "concrete_oplist", None) is not None:
             # cross-check mode: the running sum over the concrete operation list, by its definition
